@@ -1,4 +1,61 @@
+/-
+  Props/C17.lean — Manager: unique names, stable handles, harmless failed creates, precedence.
+  Every public method of Manager holds its mutex for its whole body (obligation of C11's lock discipline), so under
+  any interleaving the operations take effect in SOME order: the theorems below quantify over ALL operation
+  sequences, which covers all schedules of concurrent callers.
+-/
 import CircuitModel.Manager
+import CircuitProofs.Lemmas.Mgr
 namespace CM.Props.C17
-theorem placeholder : True := trivial
+open CM.Mgr
+
+/-- a CreateCircuit that fails because the name exists changes NOTHING: not the registry, not the stat factory's
+    binding, not the counters -/
+theorem failed_create_changes_nothing (s : State) (name : String) (cfgs : List Layer) (c : Circuit)
+    (h : s.get name = some c) : create s name cfgs = (s, .exists_) := by
+  sorry
+
+/-- for every history, the creations of one name succeed EXACTLY ONCE if attempted at all (one winner) -/
+def createdCount (name : String) : List Op → List Out → Nat
+  | .create n _ :: ops, .created _ :: outs => (if n = name then 1 else 0) + createdCount name ops outs
+  | _ :: ops, _ :: outs => createdCount name ops outs
+  | _, _ => 0
+
+def attempts (name : String) (ops : List Op) : Nat :=
+  (ops.filter fun o => match o with | .create n _ => n = name | _ => false).length
+
+theorem one_winner (ctors : List Ctor) (ops : List Op) (name : String) :
+    createdCount name ops (run { ctors := ctors } ops) = (if attempts name ops = 0 then 0 else 1) := by
+  sorry
+
+/-- the handle is stable: once created, GetCircuit returns that same circuit after ANY further history -/
+theorem get_returns_it (s : State) (name : String) (c : Circuit) (h : s.get name = some c) (ops : List Op) :
+    (exec s ops).get name = some c := by
+  sorry
+
+/-- AllCircuits holds exactly the successfully created circuits: ids 0 … k-1 where k creations succeeded -/
+theorem all_is_exactly_created (ctors : List Ctor) (ops : List Op) :
+    let s := exec { ctors := ctors } ops
+    (step s .all).2 = .all (List.range s.nextId) ∧ s.circuits.length = s.nextId := by
+  sorry
+
+/-- PRECEDENCE: a created circuit's settings are taken, field by field, from the explicit configs in argument
+    order, then from the default constructors from last to first, then from the library defaults; booleans are set
+    if any layer sets them -/
+theorem precedence_holds (s : State) (name : String) (cfgs : List Layer) (h : s.get name = none) :
+    ∃ c s', create s name cfgs = (s', .created c) ∧ c.cfg = specCfg s.ctors cfgs := by
+  sorry
+
+/-- the stats a StatFactory hands out for a live name are the ones attached to the live circuit, after ANY history
+    (with at most one stat factory among the constructors) -/
+theorem stats_stay_bound (ctors : List Ctor) (hone : (ctors.filter (· == .statFactory)).length ≤ 1) (ops : List Op)
+    (name : String) (c : Circuit) (h : (exec { ctors := ctors } ops).get name = some c) :
+    c.stats = (if ctors.contains .statFactory then (exec { ctors := ctors } ops).statFor name else none) := by
+  sorry
+
+example : run { ctors := [.layer { timeout := 5 }, .statFactory, .layer { timeout := 7, maxConc := 3 }] }
+    [.create "a" [{ maxConc := 9 }], .create "a" [], .stats "a", .get "a"]
+  = [.created { id := 0, cfg := { timeout := 7, maxConc := 9, fbMaxConc := 10 }, stats := some 0 }, .exists_, .bound (some true),
+     .got (some { id := 0, cfg := { timeout := 7, maxConc := 9, fbMaxConc := 10 }, stats := some 0 })] := by decide
+
 end CM.Props.C17
